@@ -122,12 +122,51 @@ def unit_vol(al, be, ga):
 
 def cell_ok(al, be, ga):
     """well-conditioned: unit volume and all reciprocal sines away from 0"""
-    if unit_vol(al, be, ga) < 0.3:
+    if unit_vol(al, be, ga) < 0.2:
         return False
-    return all(30.0 <= x <= 150.0 for x in (al, be, ga))
+    return all(14.0 <= x <= 166.0 for x in (al, be, ga))
 
 
-STRATA = ["ortho", "alpha", "beta", "gamma", "alpha+beta", "alpha+gamma", "beta+gamma", "all", "table", "near-table", "all-wide"]
+STRATA = ["ortho", "alpha", "beta", "gamma", "alpha+beta", "alpha+gamma", "beta+gamma", "all", "table", "near-table", "all-wide", "special"]
+
+
+def special_angles():
+    """Cell angles at which `cosd`/`sind` may take a table value: every x in (0,180) with x % 360 or (90 - x) % 360 a key of the
+    CURRENT `_EXACT_COSD` of the tree under test (read at run time), plus all multiples of 15 degrees."""
+    from diffpy.structure import lattice as latmod
+
+    xs = {15.0 * i for i in range(1, 12)}
+    for k in getattr(latmod, "_EXACT_COSD", {}):
+        for x in (float(k) % 360.0, (90.0 - float(k)) % 360.0):
+            if 0.0 < x < 180.0:
+                xs.add(x)
+    return sorted(xs)
+
+
+def special_cells():
+    """Deterministic sweep: every special angle, exactly and +-1e-9, in every angle position, completed to a valid cell.
+    Yields (position, x, eps, (al, be, ga), (al0, be0, ga0)) where the second triple has 90 (or 80) in that position: a valid
+    cell from which the special angle can be reached by setLatPar / property assignment.  Skipped angles are returned too."""
+    others = [(90.0, 90.0), (80.0, 100.0), (100.0, 75.0), (60.0, 60.0), (120.0, 100.0), (70.0, 65.0)]
+    out, skipped = [], []
+    for pos in range(3):
+        for x in special_angles():
+            for eps in (0.0, 1e-9, -1e-9):
+                for o in others:
+                    for start in (90.0, 80.0, 100.0):
+                        cell = list(o)
+                        cell.insert(pos, x + eps)
+                        cell0 = list(o)
+                        cell0.insert(pos, start)
+                        if cell_ok(*cell) and cell_ok(*cell0) and start != x:
+                            break
+                    else:
+                        continue
+                    out.append((pos, x, eps, tuple(cell), tuple(cell0)))
+                    break
+                else:
+                    skipped.append((pos, x, eps))
+    return out, skipped
 
 
 def gen_angles(rng, stratum):
@@ -144,6 +183,11 @@ def gen_angles(rng, stratum):
                 al, be, ga = al + eps[0], be + eps[1], ga + eps[2]
         elif stratum == "all-wide":
             al, be, ga = (round(rng.uniform(35.0, 145.0), 2) for _ in range(3))
+        elif stratum == "special":
+            sp = special_angles()
+            k = rng.randrange(1, 8)
+            ang = [rng.choice(sp) + rng.choice([0.0, 0.0, 1e-9, -1e-9]) if (k >> i) & 1 else rng.choice([90.0, rnd()]) for i in range(3)]
+            al, be, ga = ang
         else:
             names = ["alpha", "beta", "gamma"] if stratum == "all" else stratum.split("+")
             if "alpha" in names:
@@ -435,10 +479,15 @@ def gen_history_cases(rng, stratum):
             targets = [0]
         # every intermediate object must be a well-conditioned cell
         okh = True
-        for n in range(1, len(ops) + 1):
-            for s in shadow_states(ops[:n]):
-                if not cell_ok(*s["p"][3:]) or min(s["p"][:3]) < 0.02 or max(s["p"][:3]) > 60.0:
-                    okh = False
+        try:
+            for n in range(1, len(ops) + 1):
+                for s in shadow_states(ops[:n]):
+                    if not cell_ok(*s["p"][3:]) or min(s["p"][:3]) < 0.02 or max(s["p"][:3]) > 60.0:
+                        okh = False
+                if not okh:
+                    break
+        except Exception:  # noqa: BLE001  (an intermediate cell is not a cell at all)
+            okh = False
         if okh:
             return [{"kind": "history", "ops": ops, "target": t, "pattern": pat} for t in targets]
     return [gen_ctor(rng, stratum)]
@@ -710,6 +759,15 @@ def run(ck):
             cases.append((ct, gen_vectors(rng, nvec)))
         i += 1
     cases = cases[:ncell]
+    # deterministic sweep of the special angles (table-related and multiples of 15, exactly and +-1e-9, every position)
+    sweep, skipped = special_cells()
+    for pos, x, eps, cell, _ in sweep:
+        a, b, c = gen_lengths(rng)
+        ct = {"kind": "par", "abcABG": [a, b, c] + list(cell), "rot": gen_rot(rng) if rng.random() < 0.5 else None,
+              "stratum": "sweep:%s=%g%+g" % (("alpha", "beta", "gamma")[pos], x, eps)}
+        cases.append((ct, gen_vectors(rng, 2)))
+    ck.coverage["special_angles"] = {"angles": special_angles(), "cells": len(sweep), "skipped_no_valid_cell": skipped}
+    ncell = len(cases)
     hist = {}
     disagreements = []  # (ct, what) model vs implementation
     nfail_oracle = 0
@@ -725,7 +783,7 @@ def run(ck):
             lines.append(" ".join(q))
         outs = common.driver(lines)
         for (ct, pairs), o in zip(chunk, outs):
-            key_st = "%s/%s" % (ct["kind"] + ("+rot" if ct.get("rot") else "") + (":" + ct["pattern"] if ct.get("pattern") else ""), ct["stratum"])
+            key_st = "%s/%s" % (ct["kind"] + ("+rot" if ct.get("rot") else "") + (":" + ct["pattern"] if ct.get("pattern") else ""), ct["stratum"].split(":")[0])
             hist[key_st] = hist.get(key_st, 0) + 1
             ck.coverage["evaluations"] += 1
             try:
@@ -826,7 +884,7 @@ def run(ck):
                                     "Lean Float instance of Elem (cos, acos, sqrt of the C library) as executable side"]
     ck.assumptions += ["IEEE-754 arithmetic, numpy.dot/linalg.inv and libm are modelled (theorems over R; correspondence tolerance 1e-9*scale)",
                        "numpy.linalg.inv is modelled by the adjugate formula",
-                       "cells are generated well-conditioned (unit volume >= 0.3, angles in [30,150] degrees)"]
+                       "cells are generated well-conditioned (unit volume >= 0.2, angles in [14,166] degrees)"]
     if ok and not quick:
         leanchecker(ck, "DS.Props.C01")
     if not ok and not ck.violations:
